@@ -17,9 +17,13 @@ M3 == IF Deep3 THEN {ArrV(s) : s \in SeqsFromTo(Mid, 1, 2)} ELSE {}        \* de
 
 A == Col("a")
 \* (the last one reads the document next to the table through the back-reference: w = 3 in every document)
-Wheres == {None, CmpE(">", A, LN(1)), CmpE("=", A, LN(3)), NotE(CmpE("<", A, LN(5))), CmpE("=", A, ColP(<<"<-", "w">>))}
+\* (m.a: the column spelled with the table's name in front is a path through a key m of the row - which no row has -
+\* inside the inner arrays exactly as on an array queried directly)
+MA == ColP(<<"m", "a">>)
+Wheres == {None, CmpE(">", A, LN(1)), CmpE("=", A, LN(3)), NotE(CmpE("<", A, LN(5))), CmpE("=", A, ColP(<<"<-", "w">>)),
+           OrE(CmpE(">", MA, LN(1)), CmpE("=", A, LN(3)))}
 Sels == {<<Star>>, <<Item(A, "")>>, <<Item(Bin("+", A, LN(1)), "b")>>,          \* b = a + 1: projecting twice would show
-         <<Item(A, "x"), Item(Col("b"), "")>>}
+         <<Item(A, "x"), Item(Col("b"), "")>>, <<Item(MA, "q"), Item(A, "")>>}
 MFrom == Table(<<"m">>, "")
 MixFrom == [k |-> "sel", as |-> "", sel |-> <<[fn |-> "mix", steps |-> <<[k |-> "key", name |-> "m"]>>]>>]
 
